@@ -561,6 +561,8 @@ class SimplifiedRegexMatcher(RegexMatcher):
             "Regular expression should not use begin/end-markers: "+ pattern
         expression = r"^%s$" % pattern
         super(SimplifiedRegexMatcher, self).__init__(func, expression, step_type)
+        # -- NEEDED-FOR: StepRegistry.same_step_definition()
+        self.raw_pattern = pattern
 
 
 class CucumberRegexMatcher(RegexMatcher):
